@@ -178,10 +178,16 @@ def writeCore (s : Spec) (k : Bytes) (v : Option Bytes) (ops : List Nat) : Spec 
     { s with cells := upsert s.cells k (fun c => { c with present := true, flags := flags', versions := r.1 }),
              clock := r.2, dirty := dirty' }
 
+/-- `value != nil && uint64(len(key)+len(value)) > entrySizeLimit` (flags-only updates are exempt) -/
+def entryTooLarge (k : Bytes) (v : Option Bytes) (limit : Nat) : Bool :=
+  match v with
+  | some x => decide (k.length + x.length > limit)
+  | none => false
+
 /-- ART.Set / RBT.Set: limits, then the write; the buffer limit is checked AFTER the write has been applied -/
 def write (s : Spec) (k : Bytes) (v : Option Bytes) (ops : List Nat) : Spec × Out :=
   if k.length > Gen.MemLimits.maxKeyLen then (s, .err .keyTooLarge)
-  else if (match v with | some x => decide (k.length + x.length > s.entryLimit) | none => false) then (s, .err .entryTooLarge)
+  else if entryTooLarge k v s.entryLimit then (s, .err .entryTooLarge)
   else
     let s' := s.writeCore k v ops
     if v.isSome && decide (s'.size > (s.bufLimit : Int)) then (s', .err .txnTooLarge) else (s', .ok)
